@@ -528,27 +528,23 @@ func ruleTeletextTables(p *Prog, l *Ledger, tier string) {
 	row := p.Fn("parseTeletextRow")
 	want := []string{"ColorBlack", "ColorRed", "ColorGreen", "ColorYellow", "ColorBlue", "ColorMagenta", "ColorCyan", "ColorWhite"}
 	if row != nil {
-		arms := switchConstArms(row, func(v ssa.Value) bool {
-			// the row byte being switched on: the range value over the row parameter
-			u, ok := v.(*ssa.UnOp)
-			if !ok {
-				return false
-			}
-			ia, ok := u.X.(*ssa.IndexAddr)
-			return ok && isParamNamed("row")(ia.X)
-		})
+		// the colour selected for code c: partial evaluation of parseTeletextRow with the row byte
+		// fixed to c, up to the first merge of *Color values (switch arms, a lookup table, a chain of
+		// ifs all evaluate the same way)
+		rowByte := rowByteOf(row)
 		for code, name := range want {
 			k4 := fmt.Sprintf("%s|colour|%d", rule, code)
-			tgt := arms[fmt.Sprint(code)]
 			got := ""
-			if tgt != nil {
-				// the colour flows to the phi at the join: find the global loaded in the arm's block
-				for _, ins := range tgt.Instrs {
-					if u, ok := ins.(*ssa.UnOp); ok {
-						if g, ok := u.X.(*ssa.Global); ok && strings.HasPrefix(g.Name(), "Color") {
-							got = g.Name()
-						}
-					}
+			if rowByte != nil {
+				arr, _, ok := pevalPhi(rowByte, map[ssa.Value]pv{rowByte: {i: int64(code)}}, func(ph *ssa.Phi) bool { return isPtrToNamed(ph.Type(), "Color") })
+				names := strset{}
+				for _, a := range arr {
+					names.add(p.colourName(a.edge, a.env, 0))
+				}
+				if ok && len(names) == 1 {
+					got, _ = oneOf(names)
+				} else if len(names) > 1 {
+					got = strings.Join(names.sorted(), "|")
 				}
 			}
 			if got == name {
@@ -586,4 +582,64 @@ func ruleTeletextTables(p *Prog, l *Ledger, tier string) {
 			l.Fail(rule, "", k5, "", fmt.Sprintf("%s is rgb(%d,%d,%d), expected rgb(%d,%d,%d)", name, vals["Red"], vals["Green"], vals["Blue"], w[0], w[1], w[2]))
 		}
 	}
+}
+
+// rowByteOf: the load of the current byte of the `row` parameter in a row decoder (nil if not unique).
+func rowByteOf(fn *ssa.Function) *ssa.UnOp {
+	var found *ssa.UnOp
+	for _, b := range fn.Blocks {
+		for _, ins := range b.Instrs {
+			u, ok := ins.(*ssa.UnOp)
+			if !ok || u.Op != token.MUL {
+				continue
+			}
+			ia, ok := u.X.(*ssa.IndexAddr)
+			if !ok || !isParamNamed("row")(ia.X) {
+				continue
+			}
+			if found != nil {
+				return nil
+			}
+			found = u
+		}
+	}
+	return found
+}
+
+// colourName: the package-level colour a *Color value is: a load of ColorX, or of a constant-index
+// element of a package-level table of such loads; "" for nil, "?" when it cannot be told.
+func (p *Prog) colourName(v ssa.Value, env map[ssa.Value]pv, depth int) string {
+	if depth > 4 {
+		return "?"
+	}
+	if c, ok := v.(*ssa.Const); ok && c.IsNil() {
+		return ""
+	}
+	u, ok := v.(*ssa.UnOp)
+	if !ok || u.Op != token.MUL {
+		return "?"
+	}
+	switch x := u.X.(type) {
+	case *ssa.Global:
+		return x.Name()
+	case *ssa.IndexAddr:
+		idx, ok := pevalValue(x.Index, env, 0)
+		if !ok || idx.isBool {
+			return "?"
+		}
+		var g *ssa.Global
+		switch b := x.X.(type) {
+		case *ssa.Global:
+			g = b
+		case *ssa.UnOp: // a slice variable
+			g, _ = b.X.(*ssa.Global)
+		}
+		if g == nil {
+			return "?"
+		}
+		if e := p.globalArrayElem(g, idx.i); e != nil {
+			return p.colourName(e, nil, depth+1)
+		}
+	}
+	return "?"
 }
